@@ -164,6 +164,38 @@ struct SharedInput
     bool operator!=(const SharedInput& o) const { return *pos != *o.pos; }
 };
 
+// a random access iterator with lvalue references and a pointer-returning operator-> whose objects are NOT adjacent in
+// memory: it visits every other object of an array (a column of a row-major matrix, one member of an array of structs)
+template <class U>
+struct Strided
+{
+    using iterator_category = std::random_access_iterator_tag;
+    using value_type = U;
+    using difference_type = std::ptrdiff_t;
+    using pointer = U*;
+    using reference = U&;
+    U* p;
+    reference operator*() const { return *p; }
+    pointer operator->() const { return p; }
+    reference operator[](difference_type n) const { return p[2 * n]; }
+    Strided& operator++() { p += 2; return *this; }
+    Strided operator++(int) { auto c = *this; p += 2; return c; }
+    Strided& operator--() { p -= 2; return *this; }
+    Strided operator--(int) { auto c = *this; p -= 2; return c; }
+    Strided& operator+=(difference_type n) { p += 2 * n; return *this; }
+    Strided& operator-=(difference_type n) { p -= 2 * n; return *this; }
+    friend Strided operator+(Strided a, difference_type n) { return a += n; }
+    friend Strided operator+(difference_type n, Strided a) { return a += n; }
+    friend Strided operator-(Strided a, difference_type n) { return a -= n; }
+    friend difference_type operator-(const Strided& a, const Strided& b) { return (a.p - b.p) / 2; }
+    friend bool operator==(const Strided& a, const Strided& b) { return a.p == b.p; }
+    friend bool operator!=(const Strided& a, const Strided& b) { return a.p != b.p; }
+    friend bool operator<(const Strided& a, const Strided& b) { return a.p < b.p; }
+    friend bool operator>(const Strided& a, const Strided& b) { return a.p > b.p; }
+    friend bool operator<=(const Strided& a, const Strided& b) { return a.p <= b.p; }
+    friend bool operator>=(const Strided& a, const Strided& b) { return a.p >= b.p; }
+};
+
 // generated range: forward iterator computing values on the fly, no data()/size()
 template <class U>
 struct Gen
@@ -353,6 +385,20 @@ void run(const std::string& form, char kind, const std::vector<std::uint64_t>& i
         g_copies = g_moves = 0;
         ci = detail::CONTIGUOUS_ITERATOR_V<typename std::deque<U>::iterator>;
         with_vector([&](auto& v) { call(v, dq.begin() + static_cast<std::ptrdiff_t>(start)); });
+    }
+    else if (form == "strideIt")
+    {  // the items sit at the even positions of a twice as long array, junk between them
+        SrcVec<U> wide;
+        wide.push_back(from_repr<U>(1));  // never empty: data() is a valid pointer
+        wide.push_back(from_repr<U>(1));
+        for (auto& x : src)
+        {
+            wide.push_back(x);
+            wide.push_back(from_repr<U>(1));
+        }
+        g_copies = g_moves = 0;
+        ci = detail::CONTIGUOUS_ITERATOR_V<Strided<U>>;
+        with_vector([&](auto& v) { call(v, Strided<U>{wide.data() + 2}); });
     }
     else if (form == "inIt")
     {  // a single-pass input iterator: every copy of it shares the position, so the items can be read once, in order
